@@ -65,6 +65,9 @@ def std_variants(tier: str, noop: bool) -> List[Dict[str, Any]]:
     kv = _v("local", "local", ["split"], "from", 0.25)
     kv["klass"] = True
     v.append(kv)
+    kv2 = _v("memory", "memory", ["one"], "from", 0.12)
+    kv2["klass"] = "split"       # two methods: the statements sit in a method reached through self
+    v.append(kv2)
     # notebook placement: IPython cells in one process, functions redefined in place on every edit
     cv = _v("memory", "memory", ["one"], "from", 0.25)
     cv["cells"] = True
@@ -106,7 +109,7 @@ def small_variants(tier: str) -> List[Dict[str, Any]]:
     v.append(pv)
     # helpers realised as classes with a method
     kv = _v("local", "local", ["split"], "from", 0.25)
-    kv["klass"] = True
+    kv["klass"] = "split"
     v.append(kv)
     if tier == "thorough":
         for x in v:
@@ -353,6 +356,8 @@ def run_family(prop: str, tier: str) -> int:
             s2.real["import_form"] = v["imp"]
             if v.get("klass"):
                 s2.real["as_class"] = shp.class_candidates(s2)
+                if v["klass"] == "split":
+                    s2.real["class_split"] = True
             if v.get("script"):
                 s2.real["main_script"] = True
             if v.get("var_names"):
@@ -385,7 +390,7 @@ def run_family(prop: str, tier: str) -> int:
                                   mode="cells" if v.get("cells") else "dds")
         realisation = "store=%s,layouts=%s,import=%s" % (v["real_store"], "/".join(v["layouts"]), v["imp"])
         if v.get("klass"):
-            realisation += ",helpers-as-classes"
+            realisation += ",helpers-as-classes" + ("-two-methods" if v["klass"] == "split" else "")
         if v.get("cells"):
             realisation += ",notebook-cells"
         if v.get("script"):
